@@ -54,7 +54,7 @@ def run(ctx):
     return {"cases": cases, "bad": bad, "worker_errs": [], "coq_errs": [res["error"]] if "error" in res else [],
             "coverage": {"evaluations": len(cases), "distinct_nontrivial": nt,
                          "exhaustive": ctx.tier != "quick",
-                         "rule": "grid n_steps<=9 (quick: 40 sampled; thorough: full grid n<=12), burn_in<n, thinning 1..4, 1 or 3 chains; two scripted "
+                         "rule": "grid n_steps<=9 (quick: 40 sampled; thorough: full grid n<=12), burn_in<n, thinning 1..4, 1 or 3 chains; three scripted (one with a reverse lax.scan sweep inside the kernel) "
                                  "deterministic kernels (one saving a second diagnostic) compared with the model exactly, plus the real mh kernel under seed: "
                                  "thinned run vs slice of the un-thinned run with the same key (float bit patterns); non-trivial = n>=2 and (burn>0 or thin>1)",
                          "histogram": {"kinds": Counter(c["kind"] for c in cases),
